@@ -80,6 +80,32 @@ Definition get_skipped_config (v : variant) (fs : bool) (fuel : nat) (s : est) (
     end
   end.
 
+(* UpdateSkippedEpochDefinitions(skippedEpoch, currentEpoch, header) (core.Service.HandleBlockImport
+   for a block that skips an epoch): re-keys the epoch data, then the configuration.  The epoch
+   data part is modelled only when the skipped epoch's data is in the database: otherwise the Go
+   code runs into `RLock nextEpochDataLock / defer RUnlock nextConfigDataLock` (fatal error), which
+   is Panic here and never exercised.  `fu` = fixes/C26-update-skipped-config-fallback.patch:
+   a configuration announced on another fork only is treated like "none announced". *)
+Definition update_skipped (v : variant) (fu : bool) (fuel : nat) (s : est) (se ce : N) (h : hdr)
+  : outcome (list est) :=
+  if se =? 0 then Ok [s] else
+  match db_move (dbe s) se ce with
+  | None => Panic
+  | Some (_, dbe') =>
+    let s1 := with_dbe s dbe' in
+    match db_move (dbc s1) se ce with
+    | Some (_, dbc') => Ok [with_dbc s1 dbc']
+    | None =>
+      match retrieve_update v fuel (e_tree s1) (ncd s1) se ce h with
+      | Ok l => Ok (map (fun x => with_ncd s1 (snd x)) l)
+      | Err c => if Nat.eqb c e_epoch_not_in_memory || (fu && Nat.eqb c e_hash_not_in_memory)
+                 then Ok [s1] else Err c
+      | Panic => Panic
+      | OutOfFuel => OutOfFuel
+      end
+    end
+  end.
+
 (* ---- persisted copies of the in-memory maps, restart ---- *)
 Record xst := mkxst { x_s : est; x_de : emap; x_dc : emap }.
 Definition x_init (t : tree) (elen : N) (dbe0 dbc0 : list (N * N)) : xst :=
